@@ -26,14 +26,19 @@ use vh_common::workers::Workers;
 struct Sink {
     id: u64,
     log: Log,
+    fail: bool, // the sink records what it is handed and then reports an I/O error
 }
 struct SinkWriter {
     id: u64,
     log: Log,
+    fail: bool,
 }
 impl io::Write for SinkWriter {
     fn write(&mut self, buf: &[u8]) -> io::Result<usize> {
         self.log.lock().unwrap().push(json!({"w": self.id, "raw": String::from_utf8_lossy(buf), "th": vh_common::rec::vt()}));
+        if self.fail {
+            return Err(io::Error::new(io::ErrorKind::Other, "failing sink"));
+        }
         Ok(buf.len())
     }
     fn flush(&mut self) -> io::Result<()> {
@@ -44,16 +49,16 @@ impl<'a> MakeWriter<'a> for Sink {
     type Writer = SinkWriter;
     fn make_writer(&'a self) -> SinkWriter {
         self.log.lock().unwrap().push(json!({"mw_nometa": self.id}));
-        SinkWriter { id: self.id, log: self.log.clone() }
+        SinkWriter { id: self.id, log: self.log.clone(), fail: self.fail }
     }
     fn make_writer_for(&'a self, m: &Metadata<'_>) -> SinkWriter {
         self.log.lock().unwrap().push(json!({"mw": self.id, "lvl": rank(m.level()), "tgt": m.target()}));
-        SinkWriter { id: self.id, log: self.log.clone() }
+        SinkWriter { id: self.id, log: self.log.clone(), fail: self.fail }
     }
 }
 
 // ---------------------------------------------------------------- callsites
-const FIELDS: &[&str] = &["message", "fa", "fb", "we\"ird", "back\\slash", "ctl\u{1}x", "uni\u{2028}z", "crab\u{1f980}", "dotted.name"];
+const FIELDS: &[&str] = &["message", "fa", "fb", "we\"ird", "back\\slash", "ctl\u{1}x", "uni\u{2028}z", "crab\u{1f980}", "dotted.name", "r#ref", "r#return"];
 
 struct Cs {
     meta: &'static Metadata<'static>,
@@ -244,6 +249,15 @@ where
         };
     }
     let base = tracing_subscriber::fmt::subscriber().with_writer(w);
+    // `opts_first`: the display options are set BEFORE the format is chosen (fmt().with_target(false).compact()): the same record
+    if b["opts_first"].as_bool().unwrap_or(false) {
+        return match b["format"].as_str().unwrap_or("full") {
+            "compact" => timed!(common!(base).compact()),
+            "pretty" => timed!(common!(base).pretty()),
+            "json" => timed!(common!(base).json().flatten_event(t("flatten", false)).with_current_span(t("current_span", true)).with_span_list(t("span_list", true))),
+            _ => timed!(common!(base)),
+        };
+    }
     match b["format"].as_str().unwrap_or("full") {
         "compact" => timed!(common!(base.compact())),
         "pretty" => timed!(common!(base.pretty())),
@@ -257,7 +271,8 @@ fn lf(r: u64) -> tracing_core::LevelFilter {
 }
 fn build(b: &Value, log: &Log) -> BoxL {
     let w = &b["writer"];
-    let s = |id: u64| Sink { id, log: log.clone() };
+    let failing: Vec<u64> = w["failing"].as_array().map(|a| a.iter().map(|x| x.as_u64().unwrap()).collect()).unwrap_or_default();
+    let s = |id: u64| Sink { id, log: log.clone(), fail: failing.contains(&id) };
     let p = |k: &str| w["params"][k].as_u64().unwrap_or(3);
     let tg = w["params"]["t"].as_str().unwrap_or("a").to_string();
     let pred = move |m: &Metadata<'_>| m.target() == tg;
@@ -361,6 +376,47 @@ fn child() {
                         _ => Span::new(meta, vs),
                     });
                     sp2.lock().unwrap().insert(s, sp);
+                }
+                // two threads record different fields of one span at the same moment: A's value has a Debug impl that, once
+                // formatting has begun, waits (at most 150 ms) until B's record call has returned
+                "record_pair" => {
+                    use std::sync::atomic::{AtomicBool, Ordering};
+                    static STARTED: AtomicBool = AtomicBool::new(false);
+                    static BDONE: AtomicBool = AtomicBool::new(false);
+                    struct Slow(String);
+                    impl fmt::Debug for Slow {
+                        fn fmt(&self, f: &mut fmt::Formatter<'_>) -> fmt::Result {
+                            STARTED.store(true, Ordering::SeqCst);
+                            let t0 = std::time::Instant::now();
+                            while !BDONE.load(Ordering::SeqCst) && t0.elapsed() < std::time::Duration::from_millis(150) {
+                                std::thread::yield_now();
+                            }
+                            f.write_str(&self.0)
+                        }
+                    }
+                    STARTED.store(false, Ordering::SeqCst);
+                    BDONE.store(false, Ordering::SeqCst);
+                    let sp = sp2.lock().unwrap().get(&s).cloned().expect("record_pair: span");
+                    let meta = sp.metadata().expect("meta");
+                    let (va, vb) = (st["fields"][0]["val"]["v"].as_str().unwrap().to_string(), st["fields"][1]["val"]["v"].as_str().unwrap().to_string());
+                    let (ia, ib) = (field_index(st["fields"][0]["name"].as_str().unwrap()), field_index(st["fields"][1]["name"].as_str().unwrap()));
+                    let (spa, spb) = (sp.clone(), sp.clone());
+                    let a = std::thread::spawn(move || {
+                        let keys: Vec<field::Field> = meta.fields().iter().collect();
+                        let v = field::debug(Slow(va));
+                        spa.record_all(&meta.fields().value_set(&[(&keys[ia], Some(&v as &dyn field::Value))]));
+                    });
+                    let b = std::thread::spawn(move || {
+                        let t0 = std::time::Instant::now();
+                        while !STARTED.load(Ordering::SeqCst) && t0.elapsed() < std::time::Duration::from_millis(150) {
+                            std::thread::yield_now();
+                        }
+                        let keys: Vec<field::Field> = meta.fields().iter().collect();
+                        spb.record_all(&meta.fields().value_set(&[(&keys[ib], Some(&vb as &dyn field::Value))]));
+                        BDONE.store(true, Ordering::SeqCst);
+                    });
+                    let _ = a.join();
+                    let _ = b.join();
                 }
                 "record" => {
                     let sp = sp2.lock().unwrap().get(&s).cloned().expect("record: span");
